@@ -132,6 +132,19 @@ CHECKS["C20"] = dict(
          "transcriptions (they choose inputs, never expected values); ASan/UBSan for memory outside the container.",
     technique="TLC refinement check of implementation-shaped container transcriptions against abstract models + per-transition behaviour export replayed on the real templates (sanitizer build) + TLC trace validation")
 
+CHECKS["C03"] = dict(
+    category="exploration", design_ref="DESIGN.md §5 C03",
+    text="ApiProtocol.tla states the call/return contract of every public entry point (P1 every call returns, P2 a non-zero status comes with a message, P3 must-fail input classes "
+         "fail and must-succeed classes succeed, P4 the object still works afterwards: a Probe after every call, no leak at the end). TLC model-checks that the step-wise acceptor "
+         "used for trace validation accepts exactly the sequences satisfying the contract (all event sequences <= 5/6) and enumerates the input classes (6191 descriptors: "
+         "truncations, tag edits, illegal characters, broken UTF-8, unknown XSLT elements/attributes, non-expressions, deep nesting 100..100000, long names, number formats). "
+         "Every rendered input is pushed through every entry point (XalanTransformer, both C APIs, XPathEvaluator) in an ASan/UBSan/LSan build, process-isolated with a CPU-time "
+         "limit, and TLC validates each recorded Call/Return/Probe/LeakCheck/Abort/Exit stream. TLA+ does not decide memory safety: the sanitizers are the observation instrument "
+         "that turns undefined behaviour into a missing Return; the claim is bounded by the inputs executed; non-terminating stylesheets (programs) are excluded.",
+    note="Trusted: tools/c03gen.py (renderer, cross-checked with expat), harness/c03.cpp (event logging, signal/terminate/sanitizer death callbacks), ASan/UBSan/LSan of GCC 12, TLC and "
+         "the CommunityModules Json/IOUtils. An unlisted rejection becomes a VIOLATION only if it repeats when the input is run alone in its own process.",
+    technique="TLA+ call/return contract (TLC: acceptor = contract, input-class enumeration) + sanitizer harness over every public entry point with a probe after every call + TLC trace validation + seeded byte-level fuzz")
+
 CHECKS["C04"] = dict(
     category="model_checking", design_ref="DESIGN.md §5 C04",
     text="Serializer.tla states the obligation: either an error and the tree is not representable, or the bytes decode in the declared encoding and parse back "
